@@ -56,3 +56,18 @@ package lib
 //@   trusted
 //@   modifies b.B, elems(b.B)
 //@   ensures len(b.B) == old(len(b.B)) + len(v)
+
+// lib.Map[K,V]: a Go map behind an RWMutex. The methods are translated in place at their call
+// sites (the lock operations are no-ops of the sequential layer; mutual exclusion is A-ATOMIC).
+//@ func (*Map[K, V]).Load
+//@   inline
+//@ func (*Map[K, V]).LoadAndDelete
+//@   inline
+//@ func (*Map[K, V]).Store
+//@   inline
+//@ func (*Map[K, V]).Delete
+//@   inline
+//@ func (*Map[K, V]).Len
+//@   inline
+//@ func (*Map[K, V]).LoadOrStore
+//@   inline
